@@ -168,6 +168,8 @@ pub struct Src {
     pub reenabled: bool,
     pub rereg_count_expected: u32,
     pub removed_in_own_cb: bool,
+    /// its process_events returned an error in the current dispatch
+    pub errored_this_dispatch: bool,
     /// expected register / reregister / unregister calls on the wrapped source (C09)
     pub exp: [u32; 3],
 }
